@@ -573,6 +573,7 @@ fn x1_path(p: &mut syn::Path, qself: &mut Option<syn::QSelf>) -> bool {
 }
 
 struct Pass {
+    subst: Vec<(String, String)>,
     rw: Rw,
     closure_count: usize,
     loop_count: usize,
@@ -793,6 +794,42 @@ impl VisitMut for Pass {
                 if x1_path(&mut p.path, &mut p.qself) {
                     self.rw.note("X1", line);
                 }
+                if p.qself.is_none() && p.path.segments.len() >= 2 {
+                    let first = p.path.segments[0].ident.to_string();
+                    let mut to: Option<String> = None;
+                    if first == "f64" {
+                        to = Some("F64".into());
+                    }
+                    for (a, b) in &self.subst {
+                        if &first == a {
+                            to = Some(b.clone());
+                        }
+                    }
+                    if let Some(t) = to {
+                        let seg = p.path.segments.first_mut().unwrap();
+                        seg.ident = syn::Ident::new(&t, seg.ident.span());
+                        self.rw.note("X1", line);
+                    }
+                }
+            }
+            // X1: a float literal becomes the exact rational it denotes
+            Expr::Lit(l) => {
+                if let syn::Lit::Float(f) = &l.lit {
+                    let digits = f.base10_digits().to_string();
+                    if !digits.contains('e') && !digits.contains('E') {
+                        let (ip, fp) = match digits.split_once('.') {
+                            Some((a, b)) => (a.to_string(), b.to_string()),
+                            None => (digits.clone(), String::new()),
+                        };
+                        let num: u64 = format!("{}{}", ip, fp).parse().unwrap_or(0);
+                        let den: u64 = 10u64.pow(fp.len() as u32);
+                        let (n, d) = (proc_macro2::Literal::u64_unsuffixed(num), proc_macro2::Literal::u64_unsuffixed(den));
+                        *e = parse_quote!(__vp_flit(#n, #d));
+                        self.rw.note("X1", line);
+                    } else {
+                        self.rw.err = Some(format!("unsupported float literal {} at line {}", digits, line));
+                    }
+                }
             }
             Expr::Struct(s) => {
                 if x1_path(&mut s.path, &mut s.qself) {
@@ -889,7 +926,13 @@ pub fn extract(ast: &syn::File, file: &str, spec: &FnSpec, pr: &mut Printer) -> 
         }
     }
     let mut block = f.block.clone();
+    let subst: Vec<(String, String)> = spec
+        .attrs
+        .get("subst")
+        .map(|s| s.split(',').filter_map(|kv| kv.split_once(':').map(|(a, b)| (a.to_string(), b.to_string()))).collect())
+        .unwrap_or_default();
     let mut pass = Pass {
+        subst,
         rw: Rw { log: vec![], try_match: spec.attrs.contains_key("try_match"), err: None },
         closure_count: 0,
         loop_count: 0,
@@ -955,5 +998,6 @@ pub fn extract(ast: &syn::File, file: &str, spec: &FnSpec, pr: &mut Printer) -> 
         "parallel_cfg": f.par,
         "rewrites": pass.rw.log,
         "tags": spec.attrs.get("tags").cloned().unwrap_or_default(),
+        "safety_tags": spec.attrs.get("safety_tags").cloned().unwrap_or_default(),
     }))
 }
